@@ -24,7 +24,7 @@ EXPLANATION = ('Preservation obligations of the attachment forest, checked at ea
                'an abstract heap (exact write sets per path), must-pass / guard rules for the detach paths of freeSlot and PUT_COPY, '
                'who-may-write on the three link fields, and the base-chain rebuild at finalisation.  The forest property itself under '
                'arbitrary rule sequences is an induction over these steps and is not mechanised.')
-FLOORS = {'TREEWRITERS': 5, 'ATTACH': 6, 'LISTOPS': 8, 'DETACH': 6, 'BASECHAIN': 2}
+FLOORS = {'TREEWRITERS': 5, 'ATTACH': 6, 'LISTOPS': 8, 'DETACH': 7, 'BASECHAIN': 3}
 
 
 def treewriters(run, fx):
@@ -378,6 +378,81 @@ def basechain(run, fx):
         run.violated('BASECHAIN', 'linkClusters links bases only', lk.where(), 'linkClusters chains slots that are not bases into the base chain')
 
 
+def basechain_exec(run, fx, maxn=5):
+    """BASECHAIN by bounded abstract execution (rules/ordint.py): Segment::linkClusters (with Slot::next, isBase, sibling inlined from
+    their own CFGs) is interpreted on every stream of up to `maxn` slots, every pattern of which slots are bases and which hang
+    under some other slot (with a marker in their sibling link), both direction bits.  Afterwards: the sibling link of every attached
+    slot is untouched, and following the base chain from its head visits every base exactly once and nothing else (C04's last clause).
+    Pre-state: bases carry a null sibling link (they are detached slots; only linkClusters and the child-list operations write
+    m_sibling, and removeChild / the Slot constructor null it)."""
+    import itertools
+    from . import ordint as O
+    lk = fx.one('graphite2::Segment::linkClusters')
+    PS, PG = 'graphite2::Slot::', 'graphite2::Segment::'
+    srec = fx.record('graphite2::Slot')
+    grec = fx.record('graphite2::Segment')
+    cases = 0
+    for n in range(1, maxn + 1):
+        for bases in itertools.product((True, False), repeat=n):
+            for dirbit in (0, 1):
+                cases += 1
+                slots = []
+                for k in range(n):
+                    r = O.Rec()
+                    for f in srec['fields']:
+                        r[PS + f['n']] = None if '*' not in (f.get('t') or '') else O.Ptr(None)
+                    slots.append(r)
+                marker = O.Rec()
+                for f in srec['fields']:
+                    marker[PS + f['n']] = O.Ptr(None) if '*' in (f.get('t') or '') else None
+                marker['tag'] = 'marker'
+                parent = O.Rec()
+                for f in srec['fields']:
+                    parent[PS + f['n']] = O.Ptr(None) if '*' in (f.get('t') or '') else None
+                for k, r in enumerate(slots):
+                    r[PS + 'm_next'] = O.Ptr(slots[k + 1]) if k + 1 < n else O.Ptr(None)
+                    r[PS + 'm_prev'] = O.Ptr(slots[k - 1]) if k else O.Ptr(None)
+                    if not bases[k]:
+                        # attached somewhere: a non-null parent (the first base if there is one, else a slot outside the range)
+                        anyb = [j for j in range(n) if bases[j]]
+                        r[PS + 'm_parent'] = O.Ptr(slots[anyb[0]] if anyb else parent)
+                        r[PS + 'm_sibling'] = O.Ptr(marker)
+                seg = O.Rec()
+                for f in grec['fields']:
+                    seg[PG + f['n']] = None
+                seg[PG + 'm_dir'] = dirbit
+                seg[PG + 'm_first'] = O.Ptr(slots[0])
+                seg[PG + 'm_last'] = O.Ptr(slots[-1])
+                it = O.Interp(fx)
+                it.MAX_STEPS = 5000
+                try:
+                    it.call(lk, seg, [O.Ptr(slots[0]), O.Ptr(slots[-1])])
+                except O.Violation as v:
+                    return cases, 'stream of %d slots, bases %s, dir %d: %s (%s)' % (n, [int(b) for b in bases], dirbit, v.what, v.loc)
+                for k, r in enumerate(slots):
+                    if not bases[k] and r[PS + 'm_sibling'].rec is not marker:
+                        return cases, ('stream of %d slots, bases %s, dir %d: the sibling link of the ATTACHED slot %d was rewritten -- an attached slot is chained into the base chain '
+                                       '(its parent\'s child list is cut or joined to the bases)' % (n, [int(b) for b in bases], dirbit, k))
+                if marker[PS + 'm_sibling'].rec is not None or parent[PS + 'm_sibling'].rec is not None or parent[PS + 'm_child'].rec is not None:
+                    return cases, ('stream of %d slots, bases %s, dir %d: a slot outside the base chain (the next sibling in an attached slot\'s child list) had its sibling link '
+                                   'rewritten -- bases are being appended to a parent\'s list of attachments' % (n, [int(b) for b in bases], dirbit))
+                bl = [k for k in range(n) if bases[k]]
+                if not bl:
+                    continue
+                head = slots[bl[0]] if not dirbit else slots[bl[-1]]
+                seen, cur, steps = [], head, 0
+                while cur is not None and steps <= n + 1:
+                    seen.append(cur)
+                    cur = cur[PS + 'm_sibling'].rec if 'tag' not in cur else None
+                    steps += 1
+                ids = [slots.index(x) if x in slots else -1 for x in seen]
+                want = bl if not dirbit else bl[::-1]
+                if ids != want:
+                    return cases, ('stream of %d slots, bases %s, dir %d: the base chain visits %s, expected exactly the bases %s once each'
+                                   % (n, [int(b) for b in bases], dirbit, ids, want))
+    return cases, None
+
+
 def run(run):
     vm = R.get_vm(run)
     fx = vm.fx
@@ -386,6 +461,17 @@ def run(run):
     listops(run, fx)
     detach(run, vm)
     basechain(run, fx)
+    lk = fx.one('graphite2::Segment::linkClusters')
+    try:
+        cases, prob = basechain_exec(run, fx)
+        if prob:
+            run.violated('BASECHAIN', 'linkClusters builds one chain of exactly the bases', lk.where(), prob)
+        else:
+            run.held('BASECHAIN', 'linkClusters builds one chain of exactly the bases', lk.where(), '%d abstract executions: every stream of up to 5 slots x base pattern x direction' % cases)
+    except AnalysisBroken as ex:
+        run.broken('BASECHAIN', 'linkClusters builds one chain of exactly the bases', str(ex), lk.where())
+    from . import c03
+    c03.slot_ctor_clean(run, fx, 'DETACH')
     # TEMP_COPY marks its copy (shared with C03 LINKSYM)
     tc = vm.handlers['temp_copy']
     marks = [e for e in calls_in(tc, 'graphite2::Slot::markCopied') if tc.strip_all_casts(e['args'][0]).get('v') == 1]
